@@ -139,4 +139,60 @@ def Sys.init (chk : Bool) (d : Disk) (content : Nat → List Nat) (next : Nat) :
 /-- what a reader that lists `pack-names` now can see -/
 def visible (s : Sys) : List Nat := s.disk.names.flatMap s.content
 
+/-! ## Content-addressed names
+
+A real pack name is the md5 of the pack's content, so two processes that write
+byte-identical packs (two fetches of the same revisions, two packers combining
+the same packs) use the SAME name.  `finish` / `repack` above give the new pack
+a globally fresh name (the case of different content); the extended actions
+below take the name from the schedule (the harness passes the number it gave to
+that content hash), everything else is unchanged:
+
+* `NewPack.finish` writes the indices and renames the pack file over whatever is
+  there under that name;
+* `allocate` raises "Pack … already exists" when the process itself lists the
+  name (nothing in memory changes, the operation fails) and otherwise adds it —
+  it does not look at `pack-names` or at other processes;
+* the revisions of the name are what they were (same hash = same content).
+
+The positive theorems are about `exec` (fresh names); `execX` is what the
+driver runs, it coincides with `exec` on schedules without name reuse
+(`execX_base`) and `same_name_relisted_witness` shows what name reuse does. -/
+
+inductive XAct where
+  | base (a : Act)
+  | finishAs (m : Nat) (revs : List Nat)
+  | repackAs (m : Nat) (sel : List Nat)
+  deriving Repr
+
+def stepX (s : Sys) (i : Nat) : XAct → Sys
+  | .base a => step s i a
+  | .finishAs m revs =>
+    let p := s.procs i
+    let d := run s.disk (newPackOps s.chk (upTmp s.next false) m)
+    if p.names.contains m then { s with disk := d, next := s.next + 2 }
+    else
+      { s with
+        disk := d
+        procs := upd s.procs i { p with names := p.names ++ [m] }
+        content := upd s.content m revs
+        next := s.next + 2 }
+  | .repackAs m sel =>
+    let p := s.procs i
+    if sel.all (fun n => p.names.contains n) then
+      let d := run s.disk (newPackOps s.chk (upTmp s.next true) m)
+      if p.names.contains m then { s with disk := d, next := s.next + 2 }
+      else
+        { s with
+          disk := d
+          procs := upd s.procs i
+            { p with names := p.names.filter (fun n => !sel.contains n) ++ [m], combined := p.combined ++ sel }
+          content := upd s.content m (sel.flatMap s.content)
+          next := s.next + 2 }
+    else doReload s i
+
+abbrev XSchedule := List (Nat × XAct)
+
+def execX (s : Sys) (sched : XSchedule) : Sys := sched.foldl (fun st a => stepX st a.1 a.2) s
+
 end BreezyVerif.C05
